@@ -214,6 +214,16 @@ func c03Run(r *core.Run, p C03Case) {
 		}
 		data := ref.EncodeXZStream(ref.CheckCRC32, []ref.XZBlockSpec{{LZMA2: lz2, Plain: plain, DictCode: dictCodeFor(len(plain) + 1)}})
 		c03Judge(r, p, data, plain, "ops", fmt.Sprintf("fill(%d) then %s, props %v", p.Fill, symsString(p.Syms), pr))
+	case "walk":
+		// a fixed long operation walk (seed in Fill) x property set: trained contexts everywhere
+		ops := longWalk(p.Fill, 4000)
+		pr := ref.Props{LC: p.Props[0], LP: p.Props[1], PB: p.Props[2]}
+		lz2, plain, err := encodeOpsLZMA2(ops, pr)
+		if err != nil {
+			panic("C03 generator (walk): " + err.Error())
+		}
+		data := ref.EncodeXZStream(ref.CheckCRC32, []ref.XZBlockSpec{{LZMA2: lz2, Plain: plain, DictCode: dictCodeFor(len(plain) + 1)}})
+		c03Judge(r, p, data, plain, "long-walk", fmt.Sprintf("long operation walk seed %d (4000 operations, %d bytes), props %v, ReaderConfig.DictCap=%d", p.Fill, len(plain), pr, p.DictCap))
 	case "chunks":
 		c03Chunks(r, p)
 	case "container":
@@ -404,7 +414,7 @@ func c03Hetero(r *core.Run, p C03Case) {
 func runC03(r *core.Run) {
 	corpus := bindRef(r)
 	th := thorough(r)
-	r.Rule = "streams from the specification-driven generator: (a) ALL legal operation sequences of depth d over {lit x3, match(len x dist incl. the window edge), rep0 x2, shortrep, rep1-3} from the empty window and after fill prefixes 127/4095/4096/4097 (extended distances covering every distance-slot class); (b) a fixed op list x all 75 property sets; (c) every split into <=3 chunks x every legal chunk kind per position with different properties; (d) 4 checks x size fields x header padding x {0,1,2,3 blocks, empty block}, every legal block header size 12..1024, 127..300 blocks; (d2) every list of 1..3 blocks over a menu of 5 blocks with different dictionary sizes, properties, far matches, raw chunks, empty; (f) chunk size fields at their limits (65536 / 65535 compressed bytes, 2 MiB / 2 MiB-1 uncompressed, raw chunks of 65536 and 1 bytes, a single-literal chunk); (e) the frozen liblzma corpus and fresh liblzma encodings x ReaderConfig.DictCap. states = LZMA coder states entered; transitions = (state, op kind), distance-slot/length classes, chunk-automaton steps; non-trivial = distinct (case family, outcome, empty?)"
+	r.Rule = "streams from the specification-driven generator: (a) ALL legal operation sequences of depth d over {lit x3, match(len x dist incl. the window edge), rep0 x2, shortrep, rep1-3} from the empty window and after fill prefixes 127/4095/4096/4097 (extended distances covering every distance-slot class); (b) a fixed op list x all 75 property sets; (b2) eight fixed long operation walks (4000 operations each: trained contexts) x all 75 property sets; (c) every split into <=3 chunks x every legal chunk kind per position with different properties; (d) 4 checks x size fields x header padding x {0,1,2,3 blocks, empty block}, every legal block header size 12..1024, 127..300 blocks; (d2) every list of 1..3 blocks over a menu of 5 blocks with different dictionary sizes, properties, far matches, raw chunks, empty; (f) chunk size fields at their limits (65536 / 65535 compressed bytes, 2 MiB / 2 MiB-1 uncompressed, raw chunks of 65536 and 1 bytes, a single-literal chunk); (e) the frozen liblzma corpus and fresh liblzma encodings x ReaderConfig.DictCap. states = LZMA coder states entered; transitions = (state, op kind), distance-slot/length classes, chunk-automaton steps; non-trivial = distinct (case family, outcome, empty?)"
 	var cases []C03Case
 	def := [3]int{3, 0, 2}
 	// (a) operation sequences, enumerated inside the workers (not materialised)
@@ -492,6 +502,16 @@ func runC03(r *core.Run) {
 	for _, pr := range allProps2() {
 		for _, dc := range []int{4096, 65536} {
 			cases = append(cases, C03Case{Kind: "ops", Fill: 200, Syms: fixed, Props: pr, DictCap: dc})
+		}
+	}
+	// (b2) eight fixed long operation walks x all 75 property sets
+	for seed := 0; seed < 8; seed++ {
+		for _, pr := range allProps2() {
+			dc := 4096
+			if seed%2 == 1 {
+				dc = 1 << 20
+			}
+			cases = append(cases, C03Case{Kind: "walk", Fill: seed, Props: pr, DictCap: dc})
 		}
 	}
 	// (c) chunk layouts
